@@ -412,6 +412,7 @@ TABLE_OPS = [
     ("set_column_cells", 2),
     ("clear", 1),
     ("rowroute", 8),
+    ("rowsroute", 3),
     ("live_repeated", 3),
     ("rstrip", 3),
     ("optimize_width", 2),
@@ -662,6 +663,17 @@ def _gen_op(rng, vals, grid, enc, allow=None):
                 else:
                     subs.append({"op": k, "start": x if rng.random() < 0.7 else 0, "cells": [gen_cell(rng, vals) for _ in range(rng.randint(0, 3))]})
             return {"op": name, "y": y, "subs": subs}
+        if name == "rowsroute":
+            # several rows read together (copies), edited differently, pushed back one by one
+            if H < 2:
+                continue
+            y1 = pick_y(rng, grid, enc, allow_beyond=False)
+            cand = [y1 + 1, y1 - 1, rng.randrange(H)]
+            y2 = next((y for y in cand if 0 <= y < H and y != y1), None)
+            if y2 is None:
+                continue
+            edits = [{"y": y, "x": rng.randint(0, max(len(grid.rows[y]), 1)), "v": vals.new(rng)} for y in (y1, y2)]
+            return {"op": name, "getter": rng.choice(["get_rows", "traverse", "rows", "get_rows(area)"]), "edits": edits}
         if name == "live_repeated":
             kind = "row"  # live Column/Cell repeat edits are out of contract (DESIGN C02)
             n = rng.choice([None, 1, 2, 3, 4])
@@ -901,6 +913,12 @@ def apply_model(g: Grid, op, observed=None):
                     x += c["r"]
         rr = (observed or {}).get("row_repeat", 1)
         g.set_row(y, content, rr)
+    elif o == "rowsroute":
+        for e in op["edits"]:
+            content = list(g.rows[e["y"]])
+            Grid.pad(content, e["x"])
+            content[e["x"] : e["x"] + 1] = [e["v"]]
+            g.set_row(e["y"], content, 1)
     elif o == "live_repeated":
         n = max(op["n"] or 1, 1)
         a, b = observed["run"]  # logical span [a, b] covered by the live element
@@ -1081,6 +1099,20 @@ def apply_real(t, op, observed):
                 row.set_cells([mk_cell(c) for c in s["cells"]], start=s["start"])
         observed["row_repeat"] = row.repeated or 1
         t.set_row(op["y"], row)
+    elif o == "rowsroute":
+        g_ = op["getter"]
+        if g_ == "get_rows":
+            rows = t.get_rows()
+        elif g_ == "traverse":
+            rows = list(t.traverse())
+        elif g_ == "rows":
+            rows = list(t.rows)
+        else:
+            rows = t.get_rows((0, 0, max(t.width - 1, 0), max(t.height - 1, 0)))
+        for e in op["edits"]:
+            rows[e["y"]].set_value(e["x"], e["v"])
+        for e in op["edits"]:
+            t.set_row(e["y"], rows[e["y"]])
     elif o == "live_repeated":
         # the access path the repository's own tests use for live items: get_elements on the
         # cached element (the item then shares the owner's position map)
@@ -1143,6 +1175,9 @@ def classify(op, grid, enc):
         elif o == "live_repeated":
             rs = op["kind"]
             rep = op["n"] or 0
+        elif o == "rowsroute":
+            ys = [e["y"] for e in op["edits"]]
+            rs = run_shape(enc.row_runs, ys[0]) + ("+same-run" if _span(enc.row_runs, ys[0]) == _span(enc.row_runs, ys[1]) else "+other-run") + ":" + op["getter"]
     except Exception:
         pass
     key = f"{o}{'(clone=False)' if op.get('noclone') else ''}|row={rs}|cell={cs}|rep={'>1' if rep > 1 else '1'}|spill={int(sp)}|nextrep={int(nx)}"
